@@ -17,6 +17,8 @@ from ..schema import (
     InputObjectType,
     InputValue,
     InterfaceType,
+    ListType,
+    NonNullType,
     ObjectType,
     ScalarType,
     Schema,
@@ -396,7 +398,15 @@ class TypeInfoVisitor(DispatchingVisitor):
 
     def enter_list_value(self, node):
 
-        item_type = unwrap_type(self.input_type) if self.input_type else None
+        # The items of a list literal are typed by the list's item type (which
+        # may itself be a list or non-null), a list literal in a non-list
+        # position keeps the position's type.
+        list_type = self.input_type
+        if isinstance(list_type, NonNullType):
+            list_type = list_type.type
+        item_type = (
+            list_type.type if isinstance(list_type, ListType) else list_type
+        )
 
         self._input_type_stack.append(
             item_type if item_type and is_input_type(item_type) else None
